@@ -169,7 +169,7 @@ static const unsigned kParseWatchdogSeconds = 4;
 static string handle(const string &p) {
   vector<string> a = vh::split(p);
   const string &op = a[0];
-  if (op == "parse" || op == "deep" || op == "tree" || op == "len" || op == "seq" || op == "pdoc") alarm(kParseWatchdogSeconds);
+  if (op == "parse" || op == "deep" || op == "tree" || op == "len" || op == "seq" || op == "pdoc" || op == "ev") alarm(kParseWatchdogSeconds);
   if (op == "ptr") {                      // pointer from its string form
     JsonPointer ptr(S(a[1]));
     if (!ptr.IsValid()) return "valid=0";
@@ -206,6 +206,38 @@ static string handle(const string &p) {
       if (close) for (unsigned i = n; i > 0; i--) t += ((i - 1) & 1) ? "}" : "]";
     }
     return parse_result(t, false);
+  }
+  if (op == "ev") {                        // the JsonParserInterface driven directly, any event order
+    vector<string> ev = vh::split(a[1], ',');
+    JsonParser parser;
+    std::ostringstream o;
+    for (size_t i = 0; i < ev.size(); i++) {
+      const string &e = ev[i];
+      string r = e.substr(1);
+      switch (e[0]) {
+        case 'B': parser.Begin(); break;
+        case 'E': parser.End(); break;
+        case 's': parser.String(S(r)); break;
+        case 'u': parser.Number(static_cast<uint32_t>(vh::num(r))); break;
+        case 'i': parser.Number(static_cast<int32_t>(vh::snum(r))); break;
+        case 'U': parser.Number(static_cast<uint64_t>(vh::num(r))); break;
+        case 'I': parser.Number(static_cast<int64_t>(vh::snum(r))); break;
+        case 't': parser.Bool(true); break;
+        case 'f': parser.Bool(false); break;
+        case 'n': parser.Null(); break;
+        case '[': parser.OpenArray(); break;
+        case ']': parser.CloseArray(); break;
+        case '{': parser.OpenObject(); break;
+        case 'k': parser.ObjectKey(S(r)); break;
+        case '}': parser.CloseObject(); break;
+        case 'X': parser.SetError("x"); break;
+      }
+      o << "r" << i << "=" << show(parser.GetRoot()) << ";";
+    }
+    o << "herr=" << H(parser.GetError());
+    std::auto_ptr<JsonValue> claimed(parser.ClaimRoot());
+    o << ";claim=" << show(claimed.get());
+    return o.str();
   }
   if (op == "pdoc") {                      // patch given as TEXT: JsonPatchParser, then JsonData::Apply
     string text = S(a[2]);
